@@ -108,6 +108,25 @@ func DefaultModels() map[string]Model {
 		r := And(BVCmp("bvule", pp.ln, sp.ln), x.bytesEqual(st, pre, p))
 		return retOne(st, boolV(x.define(st, "hasprefix", r)))
 	}
+	// slices.Reverse(s): in-place reversal (library contract: new[i] == old[len-1-i])
+	m["slices.Reverse"] = func(x *Exec, fr *Frame, st *State, args []Value, pos token.Pos) []Outcome {
+		s := args[0]
+		et := s.T.Underlying().(*types.Slice).Elem()
+		fam := "arr:" + x.c.elemFamName(et)
+		p := sl(s)
+		for j, l := range x.c.leaves(et) {
+			c := x.comp(st, fam, et, j)
+			old := Select(c, p.base)
+			na := x.c.Fresh("reversed", SArr(idxSort, l.S))
+			i := Var("i!q", idxSort)
+			rel := BVBin("bvsub", i, p.off)
+			mirror := BVBin("bvadd", p.off, BVBin("bvsub", BVBin("bvsub", p.ln, BVLit64(1, 64)), rel))
+			st.assume(Quant("forall", []*Term{i}, Eq(Select(na, i), Ite(BVCmp("bvult", rel, p.ln), Select(old, mirror), Select(old, i))), Select(na, i)))
+			x.setComp(st, fam, et, j, Store(c, p.base, na))
+		}
+		x.c.note("assumed: slices.Reverse reverses its argument in place")
+		return []Outcome{{St: st, Kind: OutReturn}}
+	}
 	// ---- sync.Mutex / sync.RWMutex: ghost lock state per mutex (0 free, 1 write-held, 2 read-held) ----
 	lockOp := func(opName string, need func(cur *Term) *Term, next int64) Model {
 		return func(x *Exec, fr *Frame, st *State, args []Value, pos token.Pos) []Outcome {
@@ -272,6 +291,24 @@ func registerSpecBuiltins(x *Exec) {
 		}
 		return as[i]
 	}
+	// lastret("pkg.Func", i): i-th result of the most recent abstracted call to the function
+	x.specBuiltins["lastret"] = func(sc *specScope, n *ECall) Value {
+		lit, ok := n.Args[0].(*ELit)
+		il, ok2 := n.Args[1].(*ELit)
+		if !ok || !ok2 {
+			unsup("spec: lastret(\"func\", index)")
+		}
+		if sc.assumeMode {
+			unsup("spec: lastret: no recorded call to %s in the caller's scope", lit.Text)
+		}
+		as, ok := sc.st.calls[lit.Text+"#ret"]
+		i := 0
+		fmt.Sscanf(il.Text, "%d", &i)
+		if !ok || i >= len(as) {
+			unsup("spec: lastret: no recorded call to %s on this path", lit.Text)
+		}
+		return as[i]
+	}
 	// ncalls("pkg.Func"): number of calls so far
 	x.specBuiltins["ncalls"] = func(sc *specScope, n *ECall) Value {
 		lit, ok := n.Args[0].(*ELit)
@@ -322,6 +359,16 @@ func registerSpecBuiltins(x *Exec) {
 		}
 		return boolV(And(cs...))
 	}
+	// isold(v): the object v denotes exists in the current state (allocated no later than now); at a loop
+	// head this separates objects of earlier iterations from the ones the next iteration will allocate
+	x.specBuiltins["isold"] = func(sc *specScope, n *ECall) Value {
+		v := x.evalSpec0(sc, n.Args[0], nil)
+		var cs []*Term
+		for _, r := range x.refsOf(v) {
+			cs = append(cs, IntCmp("<=", r, sc.st.alloc))
+		}
+		return boolV(And(cs...))
+	}
 	// sameSlice(a, b): identical slice headers (same backing array, offset and length)
 	x.specBuiltins["sameSlice"] = func(sc *specScope, n *ECall) Value {
 		a := x.evalSpec0(sc, n.Args[0], nil)
@@ -340,11 +387,29 @@ func registerSpecBuiltins(x *Exec) {
 		if !ok {
 			unsup("spec: dyn needs a type name string")
 		}
-		T := x.lookupType(lit.Text)
+		T := x.basicType(lit.Text)
+		if T == nil {
+			T = x.lookupType(lit.Text)
+		}
 		if T == nil {
 			unsup("spec: dyn: unknown type %s", lit.Text)
 		}
 		return x.unbox(sc.st, Value{T: a.T, L: a.L}, T)
+	}
+	// param("name"): the value the parameter had at entry (parameters reassigned in the body are SSA phis)
+	x.specBuiltins["param"] = func(sc *specScope, n *ECall) Value {
+		lit, ok := n.Args[0].(*ELit)
+		if !ok {
+			unsup("spec: param needs a name string")
+		}
+		fn := sc.fr.fn
+		for _, p := range fn.Params {
+			if p.Name() == lit.Text {
+				return sc.fr.env[p]
+			}
+		}
+		unsup("spec: no parameter %s", lit.Text)
+		return Value{}
 	}
 	// iserr(e): e != nil for error interface
 	x.specBuiltins["iserr"] = func(sc *specScope, n *ECall) Value {
